@@ -19,12 +19,14 @@ RULE = ("Engine F: generated factories (RANDOM policies, conveyors whose stores 
         "edge statistics of all four must be identical. Within every run kernel time and ledger timestamps never "
         "decrease. Non-trivial: the factory uses RANDOM or has >= 2 store operations on different edges in one instant.")
 RULE += (" Two in ten flow-shaped factories also contain rework loops (a machine feeding itself or a machine of an earlier layer through a "
-         "Buffer / Fleet edge with a strictly positive delay / transit time, so no zero-time cycle exists); machine oracles work per visit, not per item.")
+         "Buffer / Fleet edge with a strictly positive delay / transit time, so no zero-time cycle exists); machine oracles work per visit, not per item. "
+         "One in ten factories is a chain or a rows x cols mesh built by the helpers of factorysimpy.constructs (the harness hands them factories "
+         "as node / edge classes and checks the wiring they produce against the documented topology).")
 ASSUMPTIONS = ["address / hash-seed dependence is sampled (two hash seeds, one heap perturbation), not enumerated",
                "item ids are unique because node ids are"]
 KEEP_CASES = True
 
-PROFILE = {"cycles": 2, "conveyors": True, "conveyor_to_sink": True, "pack": 2, "finite": 3,
+PROFILE = {"cycles": 2, "constructs": 1, "conveyors": True, "conveyor_to_sink": True, "pack": 2, "finite": 3,
            "policies": ["FIRST_AVAILABLE", "ROUND_ROBIN", "RANDOM", "RANDOM", "RANDOM", "const", "callable", "generator"]}
 
 
